@@ -14,7 +14,8 @@ RULE = ("cases are (rule, ordered child-name sequence) pairs over the rule's chi
         "the W-method suite P.Sigma^{<=k}.W of the rule's minimal 3-valued reference automaton and every sequence "
         "up to a length bound; each case runs validate.node / Rule.validate_rule in fail-fast and collecting "
         "mode on a fresh parent with valid attributes and content. distinct = distinct (rule, sequence) pairs "
-        "(all are non-trivial: each is one membership question)")
+        "(all are non-trivial: each is one membership question)"
+        ". Also: parents reused in place and one long-lived Rule object per rule (the previous sequence is part of the witness), pre-filled error lists, parents below a grandparent, foreign children with bound prefixes / Clark-notation / str-subclass names, blank or real text on mixed-content parents, sequences of 257-1000 children, a run-time edit of the rule table (both lookup paths must agree)")
 ASSUMPTIONS = [
     "reference language written from the statement: child=n^{min..max}, sequence=concatenation, "
     "choice=(alternatives)^{min..max}, choice minimums waived for textRule/anyNameRule/paraRule/subscriptRule/"
